@@ -168,36 +168,19 @@ func c17Covered(l *ast.ListNode) bool {
 				}
 			}
 		case *ast.MsgNode:
-			// {msg} without {plural}: text / html-tag runs are one text item; placeholders hold covered commands
-			if !c17PlainASCII(n.Meaning) || !c17PlainASCII(n.Desc) {
+			// {msg}: text / html-tag runs are one text item; placeholders hold covered commands; a {plural}
+			// child has case bodies that are again such children
+			if !c17PlainASCII(n.Meaning) || !c17PlainASCII(n.Desc) || !c17ChildrenCovered(n.Body.Children()) {
 				return false
 			}
-			run, inRun := "", false
-			flushRun := func() bool {
-				ok := !inRun || c17TextOK(run)
-				run, inRun = "", false
-				return ok
-			}
-			for _, ch := range n.Body.Children() {
-				switch ch := ch.(type) {
-				case *ast.RawTextNode:
-					run, inRun = run+string(ch.Text), true
-				case *ast.MsgPlaceholderNode:
-					if tag, ok := ch.Body.(*ast.MsgHtmlTagNode); ok {
-						run, inRun = run+string(tag.Text), true
-						continue
-					}
-					if !flushRun() {
-						return false
-					}
-					if _, isText := ch.Body.(*ast.RawTextNode); isText || !c17Covered(&ast.ListNode{Nodes: []ast.Node{ch.Body}}) {
-						return false
-					}
-				default:
+		case *ast.MsgPluralNode:
+			// a {plural} that is a command of a body nested in a {msg}: its case bodies are bodies
+			for _, c := range n.Cases {
+				if b, ok := c.Body.(*ast.ListNode); !ok || c.Value < 0 || !c17Covered(b) {
 					return false
 				}
 			}
-			if !flushRun() {
+			if b, ok := n.Default.(*ast.ListNode); !ok || !c17Covered(b) {
 				return false
 			}
 		case *ast.CssNode:
@@ -209,6 +192,51 @@ func c17Covered(l *ast.ListNode) bool {
 		}
 	}
 	return true
+}
+
+// c17ChildrenCovered: the children of a {msg} or of a case of its {plural} (Spec/CmdSyntax.v wf_children_gen)
+func c17ChildrenCovered(children []ast.Node) bool {
+	run, inRun := "", false
+	flushRun := func() bool {
+		ok := !inRun || c17TextOK(run)
+		run, inRun = "", false
+		return ok
+	}
+	for _, ch := range children {
+		switch ch := ch.(type) {
+		case *ast.RawTextNode:
+			run, inRun = run+string(ch.Text), true
+		case *ast.MsgPlaceholderNode:
+			if tag, ok := ch.Body.(*ast.MsgHtmlTagNode); ok {
+				run, inRun = run+string(tag.Text), true
+				continue
+			}
+			if !flushRun() {
+				return false
+			}
+			if _, isText := ch.Body.(*ast.RawTextNode); isText || !c17Covered(&ast.ListNode{Nodes: []ast.Node{ch.Body}}) {
+				return false
+			}
+			if _, isPlural := ch.Body.(*ast.MsgPluralNode); isPlural {
+				return false
+			}
+		case *ast.MsgPluralNode:
+			if !flushRun() {
+				return false
+			}
+			for _, c := range ch.Cases {
+				if c.Value < 0 || c.Body == nil || !c17ChildrenCovered(c.Body.Children()) {
+					return false
+				}
+			}
+			if ch.Default == nil || !c17ChildrenCovered(ch.Default.Children()) {
+				return false
+			}
+		default:
+			return false
+		}
+	}
+	return flushRun()
 }
 
 // c17TextOK: raw text whose String() the scanner reads back as one text item with the same bytes
@@ -285,6 +313,7 @@ var c17CmdCorpus = []string{
 	"{namespace a}\n/** */\n{template .t}\n{foreach $x in $xs}{$x}{ifempty}none{/foreach}{for $i in range(3)}{$i}{/for}{foreach $x in $xs}{/foreach}{for $x in [1, 2]}a{ifempty}b{/for}\n{/template}\n",
 	"{namespace a}\n/** */\n{template .t}\n{call .u /}{call .u data=\"all\" /}{call .u data=\"$a.b\" /}{call other.v}{param k: 1 /}{param c}content {$a}{/param}{/call}{call .u data=\"all\"}{param k: 'a\"b' /}{/call}{call .u}{/call}{call name=\".u\" /}{call .u}{param key=\"k\" value=\"$a\" /}{/call}\n{/template}\n",
 	"{namespace a}\n/** */\n{template .t}\n{msg desc=\"d\"}Hello {$name}!{/msg}{msg meaning=\"m\" desc=\"a \\\"q\\\" \\\\ \\t\"}x <a href=\"{$u}\">link</a> {$a.b|noAutoescape}{call .u /}{/msg}{msg desc=\"p\"}{plural $n}{case 0}none{case 1}one {$n}{default}many {$n}{/plural}{/msg}{msg desc=\"\" hidden=\"true\"}{/msg}\n{/template}\n",
+	"{namespace a}\n/** */\n{template .t}\n{msg desc=\"nested\"}{plural $n}{case 1}one <b>{$x}</b>{case 2}{plural $m}{case 0}zero{default}few {$m}{/plural}{default}many {$n} <i>x</i>{/plural}{/msg}{msg desc=\"in log\"}a{log}{plural $k}{case 0}zero{case 7}seven{$k}{default}{$k} left{/plural}x{/log}{let $w}{plural $k}{default}d{/plural}{/let}b{/msg}{msg desc=\"empty\"}{plural $n}{default}{/plural}{/msg}\n{/template}\n",
 	"{namespace a}\n/** */\n{template .t}\n{sp}{nil}{\\n}{\\r}{\\t}{lb}{rb}a{sp}b {lb}$x{rb}\n{/template}\n",
 	"{namespace a}\n/** */\n{template .t}\n{literal}  {$x} {lb} \n {/literal}x{literal}{/literal}\n{/template}\n",
 	"{namespace a}\n/** */\n{template .t}\n  two\n  lines <b>\n  tag</b>  {$x}  spaced   words  // comment\n /* c */ end\n{/template}\n",
